@@ -215,6 +215,35 @@ pub fn corr(ctx: &mut Ctx) {
                     break;
                 }
             }
+            // large inputs inside rayon pools of several sizes and in child processes with RAYON_NUM_THREADS set:
+            // a sketcher that splits its input over the ambient pool must not depend on the pool's size
+            if r < 1 {
+                let nbig = [8192usize + 7, 12289, 20011][(r as usize + kind.len()) % 3];
+                let big = gen_stream(&mut Sm64(seed ^ 0xb16), nbig);
+                let mb = if *kind == "ord" { 64usize } else { 2048 };   // many positions: a dropped item is then visible with high probability
+                let ref_big = sketch_text(kind, mb, &big);
+                ctx.count("context=rayon pools of size 1,2,3,7 with >= 8192 items");
+                for threads in [1usize, 2, 3, 7] {
+                    let pool = rayon::ThreadPoolBuilder::new().num_threads(threads).build().unwrap();
+                    let k = kind.to_string();
+                    let got = pool.install(|| sketch_text(&k, mb, &big));
+                    if got != ref_big {
+                        ctx.oracle_failure(serde_json::json!({"kind":"impl_violates_property","key":format!("purity:{}",kind),
+                            "what":"sketch depends on the size of the ambient rayon pool","sketcher":kind,"who":format!("rayon pool of {} threads", threads),"m":mb,"n":nbig,"seed":seed ^ 0xb16}));
+                        break;
+                    }
+                }
+                for threads in ["1", "3"] {
+                    let out = Command::new(&exe).arg("child-c12").arg(kind).arg(mb.to_string()).arg((seed ^ 0xb16).to_string()).arg(nbig.to_string())
+                        .env("RAYON_NUM_THREADS", threads).output().unwrap();
+                    let got = String::from_utf8_lossy(&out.stdout).lines().next().unwrap_or("CRASH").to_string();
+                    if got != ref_big {
+                        ctx.oracle_failure(serde_json::json!({"kind":"impl_violates_property","key":format!("purity:{}",kind),
+                            "what":"sketch depends on RAYON_NUM_THREADS of the process","sketcher":kind,"who":format!("process with RAYON_NUM_THREADS={}", threads),"m":mb,"n":nbig,"seed":seed ^ 0xb16}));
+                        break;
+                    }
+                }
+            }
             // the single model output for the kinds whose model ops are order-sensitive only through the set
             match *kind {
                 "smh" => {
